@@ -1766,34 +1766,76 @@ def _split_chain_loops(mods: dict[str, Module], log: list[str]) -> None:
 
 
 def _map_to_comprehension(mods: dict[str, Module], log: list[str]) -> None:
-    """`list(map(f, xs))` / `tuple(map(f, xs))` with `f` a plain reference or a one-parameter lambda is read as the comprehension `[f(x) for x in xs]`."""
+    """`map(f, xs[, ys])` with `f` a plain reference or a lambda is the generator `(f(x) for x in xs)` (as lazy as the map object: nothing runs until it is consumed);
+    `list(<generator>)` / `tuple(<generator>)` is the comprehension."""
     n = 0
 
     class T(ast.NodeTransformer):
         def visit_Call(self, node: ast.Call):  # noqa: N802
             nonlocal n
             self.generic_visit(node)
-            if isinstance(node.func, ast.Name) and node.func.id in ("list", "tuple") and len(node.args) == 1 and not node.keywords:
-                m = node.args[0]
-                if isinstance(m, ast.Call) and isinstance(m.func, ast.Name) and m.func.id == "map" and len(m.args) == 2 and not m.keywords:
-                    fn_, xs = m.args
-                    var = f"item__{getattr(node, 'lineno', 0)}_{getattr(node, 'col_offset', 0)}"
-                    elt = None
-                    if _simple(fn_):
-                        elt = ast.Call(func=fn_, args=[ast.Name(id=var, ctx=ast.Load())], keywords=[])
-                    elif isinstance(fn_, ast.Lambda) and len(fn_.args.args) == 1 and not fn_.args.defaults and not fn_.args.vararg and not fn_.args.kwarg:
-                        elt = _Subst({fn_.args.args[0].arg: ast.Name(id=var, ctx=ast.Load())}).visit(_clone(fn_.body))
-                    if elt is not None:
-                        n += 1
-                        comp = ast.ListComp(elt=elt, generators=[ast.comprehension(target=ast.Name(id=var, ctx=ast.Store()), iter=xs, ifs=[], is_async=0)])
-                        out = comp if node.func.id == "list" else ast.Call(func=ast.Name(id="tuple", ctx=ast.Load()), args=[comp], keywords=[])
-                        return ast.fix_missing_locations(ast.copy_location(out, node))
+            if isinstance(node.func, ast.Name) and node.func.id == "map" and len(node.args) >= 2 and not node.keywords and not any(isinstance(a, ast.Starred) for a in node.args):
+                fn_, *its = node.args
+                base = f"item__{getattr(node, 'lineno', 0)}_{getattr(node, 'col_offset', 0)}"
+                vars_ = [base if len(its) == 1 else f"{base}_{k}" for k in range(len(its))]
+                elt = None
+                if _simple(fn_):
+                    elt = ast.Call(func=fn_, args=[ast.Name(id=v, ctx=ast.Load()) for v in vars_], keywords=[])
+                elif isinstance(fn_, ast.Lambda) and len(fn_.args.args) == len(its) and not fn_.args.defaults and not fn_.args.vararg and not fn_.args.kwarg and not fn_.args.kwonlyargs \
+                        and not fn_.args.posonlyargs:
+                    elt = _Subst({a.arg: ast.Name(id=v, ctx=ast.Load()) for a, v in zip(fn_.args.args, vars_)}).visit(_clone(fn_.body))
+                if elt is not None:
+                    n += 1
+                    if len(its) == 1:
+                        tgt: ast.expr = ast.Name(id=vars_[0], ctx=ast.Store())
+                        it: ast.expr = its[0]
+                    else:
+                        tgt = ast.Tuple(elts=[ast.Name(id=v, ctx=ast.Store()) for v in vars_], ctx=ast.Store())
+                        it = ast.Call(func=ast.Name(id="zip", ctx=ast.Load()), args=its, keywords=[])
+                    out = ast.GeneratorExp(elt=elt, generators=[ast.comprehension(target=tgt, iter=it, ifs=[], is_async=0)])
+                    return ast.fix_missing_locations(ast.copy_location(out, node))
+            if isinstance(node.func, ast.Name) and node.func.id in ("list", "tuple") and len(node.args) == 1 and not node.keywords and isinstance(node.args[0], ast.GeneratorExp):
+                g = node.args[0]
+                comp = ast.ListComp(elt=g.elt, generators=g.generators)
+                out2 = comp if node.func.id == "list" else ast.Call(func=ast.Name(id="tuple", ctx=ast.Load()), args=[comp], keywords=[])
+                return ast.fix_missing_locations(ast.copy_location(out2, node))
             return node
 
     for mod in mods.values():
         mod.tree = T().visit(mod.tree)
     if n:
-        log.append(f"{n} list(map(f, xs)) call(s) read as comprehensions")
+        log.append(f"{n} map(f, xs) call(s) read as generators")
+
+
+def _fromiter_to_array(mods: dict[str, Module], log: list[str]) -> None:
+    """`np.fromiter(<generator>, dtype=D[, count=c])` consumes the generator where it stands and is `np.array([...], dtype=D)` (float64: `np.array([...])`);
+    `list(<generator>)` likewise once a local generator has been substituted into it."""
+    n = 0
+
+    class T(ast.NodeTransformer):
+        def visit_Call(self, node: ast.Call):  # noqa: N802
+            nonlocal n
+            self.generic_visit(node)
+            d = ast.unparse(node.func)
+            if d in ("np.fromiter", "numpy.fromiter") and node.args and isinstance(node.args[0], ast.GeneratorExp) and len(node.args) <= 2 and all(k.arg in ("dtype", "count") for k in node.keywords):
+                g = node.args[0]
+                dt = node.args[1] if len(node.args) == 2 else next((k.value for k in node.keywords if k.arg == "dtype"), None)
+                kws = [] if dt is None or ast.unparse(dt) in ("np.float64", "numpy.float64", "float", "'float64'", "np.double") else [ast.keyword(arg="dtype", value=dt)]
+                n += 1
+                out = ast.Call(func=ast.Attribute(value=ast.Name(id="np", ctx=ast.Load()), attr="array", ctx=ast.Load()), args=[ast.ListComp(elt=g.elt, generators=g.generators)], keywords=kws)
+                return ast.fix_missing_locations(ast.copy_location(out, node))
+            if isinstance(node.func, ast.Name) and node.func.id in ("list", "tuple") and len(node.args) == 1 and not node.keywords and isinstance(node.args[0], ast.GeneratorExp):
+                g = node.args[0]
+                comp = ast.ListComp(elt=g.elt, generators=g.generators)
+                n += 1
+                out2 = comp if node.func.id == "list" else ast.Call(func=ast.Name(id="tuple", ctx=ast.Load()), args=[comp], keywords=[])
+                return ast.fix_missing_locations(ast.copy_location(out2, node))
+            return node
+
+    for mod in mods.values():
+        mod.tree = T().visit(mod.tree)
+    if n:
+        log.append(f"{n} generator consumption(s) (np.fromiter / list) read as comprehensions at the point of consumption")
 
 
 def _beta_reduce(mods: dict[str, Module], log: list[str]) -> None:
@@ -2213,11 +2255,20 @@ def _exitstack_to_try(mods: dict[str, Module], log: list[str]) -> None:
                         regs = [(k, b) for k, b in enumerate(st.body) if isinstance(b, ast.Expr) and isinstance(b.value, ast.Call) and isinstance(b.value.func, ast.Attribute)
                                 and b.value.func.attr == "callback" and isinstance(b.value.func.value, ast.Name) and b.value.func.value.id == sv and b.value.args
                                 and not any(isinstance(a, ast.Starred) for a in b.value.args)]
-                        if not regs or len(uses) != len(regs):
+                        # `x = stack.enter_context(CM)` / bare `stack.enter_context(CM)` as a top-level statement: `with CM as x:` around what follows
+                        enters = [(k, b) for k, b in enumerate(st.body) if isinstance(b, (ast.Assign, ast.Expr)) and isinstance(b.value, ast.Call) and isinstance(b.value.func, ast.Attribute)
+                                  and b.value.func.attr == "enter_context" and isinstance(b.value.func.value, ast.Name) and b.value.func.value.id == sv and len(b.value.args) == 1
+                                  and not b.value.keywords and (isinstance(b, ast.Expr) or (len(b.targets) == 1 and isinstance(b.targets[0], ast.Name)))]
+                        if not (regs or enters) or len(uses) != len(regs) + len(enters):
                             continue
 
                         def build(stmts: list[ast.stmt]) -> list[ast.stmt]:
                             for k, b in enumerate(stmts):
+                                if any(b is r for _, r in enters):
+                                    item = ast.withitem(context_expr=b.value.args[0], optional_vars=ast.Name(id=b.targets[0].id, ctx=ast.Store()) if isinstance(b, ast.Assign) else None)
+                                    rest = build(stmts[k + 1:]) or [ast.Pass()]
+                                    w = ast.With(items=[item], body=rest)
+                                    return [*stmts[:k], ast.copy_location(w, b)]
                                 if any(b is r for _, r in regs):
                                     c = b.value
                                     call = ast.Expr(value=ast.Call(func=c.args[0], args=list(c.args[1:]), keywords=list(c.keywords)))
@@ -2233,7 +2284,7 @@ def _exitstack_to_try(mods: dict[str, Module], log: list[str]) -> None:
                         blk[idx:idx + 1] = new
                         n += 1
     if n:
-        log.append(f"{n} ExitStack block(s) with registered callbacks read as try/finally")
+        log.append(f"{n} ExitStack block(s) read as the nested with / try-finally blocks they stand for")
 
 
 def _canonical_foreach(mods: dict[str, Module], log: list[str]) -> None:
@@ -3142,6 +3193,8 @@ def canonicalise(mods: dict[str, Module]) -> dict:
     _Forward(mods, inv, fwd_log).run()
     _canonical_foreach(mods, fwd_log)
     _append_loops_to_comprehensions(mods, fwd_log)
+    _Forward(mods, inv, fwd_log).run()
+    _fromiter_to_array(mods, fwd_log)
     _Forward(mods, inv, fwd_log).run()
     _splice_starred_displays(mods, fwd_log)
     # displays that only became literal once new locals / constants were substituted
